@@ -91,7 +91,11 @@ func (c *Cache[T]) Invalidate(fileName string) {
 func (c *Cache[T]) LoadLatest(
 	fileName string, loader func() (T, error),
 ) (T, error) {
-	stale, lastModified, err := c.IsStale(fileName, c.Entry(fileName))
+	// The entry that is checked is also the one that is returned: looking
+	// it up again could find it gone (invalidated in between) or replaced by
+	// an older parse that another reader has just stored.
+	entry := c.Entry(fileName)
+	stale, lastModified, err := c.IsStale(fileName, entry)
 	if err != nil {
 		var zero T
 		return zero, err
@@ -107,8 +111,6 @@ func (c *Cache[T]) LoadLatest(
 		c.Store(fileName, data, lastModified)
 		return data, nil
 	}
-	item, _ := c.entries.Load(fileName)
-	entry := item.(Entry[T])
 	return entry.Data, nil
 }
 
